@@ -17,7 +17,10 @@ RULE = ("Same Hypothesis write programs as C07 with index_file off / True (path)
         "raw_data_offset == sum(count x size) with string totals == 4n + text bytes and non-decreasing offsets; segments tile "
         "the file; the first segment declares '/'; every channel's group is declared no later than the channel. The index "
         "file must equal, byte for byte, the per-segment concatenation 'TDSh' + lead-in[4:] + metadata. Non-trivial: a string "
-        "channel, or >=2 segments, or an index file requested.")
+        "channel, or >=2 segments, or an index file requested."
+        ' A further job writes long arrays whose lengths lie on and next to powers of two to paths and streams; '
+        'programs may overwrite an existing file written by an earlier writer (same groups) or use one writer object '
+        'for all append sessions.')
 ASSUMPTIONS = [
     "vf/parse.py implements the NI TDMS layout (raw index length field counts itself: 20 bytes, 28 for strings)",
     "programs the writer rejects are outside the statement",
